@@ -33,6 +33,18 @@ def unwrap(e: ast.AST | None) -> ast.AST | None:
         return e
 
 
+def plain_body(body: list[ast.stmt]) -> list[ast.stmt]:
+    """A statement list with the `if True:` frames the inliner leaves around an inlined helper body dissolved
+    (only frames without early returns, i.e. without an orelse / jump marks)."""
+    out: list[ast.stmt] = []
+    for s in body:
+        if isinstance(s, ast.If) and isinstance(s.test, ast.Constant) and s.test.value is True and not s.orelse and getattr(s, "_inline", False):
+            out.extend(plain_body(s.body))
+        else:
+            out.append(s)
+    return out
+
+
 def is_name(e: ast.AST | None, name: str) -> bool:
     return isinstance(e, ast.Name) and e.id == name
 
